@@ -618,6 +618,7 @@ def _print_atoms(atoms, c, p, vf, objs=None, log=None, variant="identity"):
             d = it["dattr"][a["n"] - 1]
             if a["st"]:
                 space, _n, eq, quote, _v = c.attrfmt[(a["i"], a["st"])]
+                quote = quote or '"'      # an attribute written without quotes is quoted once its value is computed
             else:
                 space, eq, quote = " ", "=", '"'
             t = _val_text(a["v"], vf, objs)
@@ -631,12 +632,14 @@ def _print_atoms(atoms, c, p, vf, objs=None, log=None, variant="identity"):
             it = p["items"][a["i"] - 1]
             d = it["dattr"][a["n"] - 1]
             space, _n, eq, quote, val = c.attrfmt[(a["i"], a["st"])]
+            quote = quote or '"'
             segs.append(space + d["n"] + eq + quote + val + quote)
         elif k == "battr":
             it = p["items"][a["i"] - 1]
             d = it["dattr"][a["n"] - 1]
             if a["st"]:
                 space, _n, eq, quote, _v = c.attrfmt[(a["i"], a["st"])]
+                quote = quote or '"'
             else:
                 space, eq, quote = " ", "=", '"'
             segs.append(space + d["n"] + eq + quote + d["n"] + quote)
